@@ -306,9 +306,9 @@ func genDiff(t *rapid.T) Script {
 			s.Stack = append(s.Stack, stack.Layer{Kind: "debug"})
 		}
 	}
-	// (re-typing the bytes of a tagged manifest makes ocimem's own ResolveTag and GetTag disagree
-	// on the media type - a gray zone that C02 handles in its model; it is not generated here)
-	cfg := hist.Config{MaxOps: 30, ValidRepos: 3, Uploads: true, Mismatch: true, BadManifests: true, Retype: false,
+	// re-typing the bytes of a tagged manifest makes ocimem's own ResolveTag and GetTag disagree on the
+	// media type (a gray zone that C02 handles in its model); here the two sides must disagree alike
+	cfg := hist.Config{MaxOps: 30, ValidRepos: 3, Uploads: true, Mismatch: true, BadManifests: true, Retype: rapid.Bool().Draw(t, "retype"),
 		Deletes: true, Lists: true, NoCancel: true, NoWrongOffset: true, MaxSmall: 40,
 		RepoPool: []string{"foo", "foo/bar", "a/blobs/uploads", "manifests/x/tags", "b", "x1/referrers", "v2/list", "tags/list/blobs", "uploads"}}
 	if rapid.IntRange(0, 3).Draw(t, "bigBlobs") == 0 {
@@ -318,13 +318,38 @@ func genDiff(t *rapid.T) Script {
 		cfg.BigManifest = 128 * 1024
 	}
 	s.Hist = hist.Gen(cfg)(t)
+	if rapid.IntRange(0, 11).Draw(t, "retypedTagShape") == 0 {
+		// directed: a manifest around the client's in-memory threshold is tagged under one media type, its
+		// bytes are pushed again under another, and the tag is read - most interesting when the server
+		// leaves the digest out of tag responses (the client then asks two or three times)
+		pad := 128*1024 + rapid.SampledFrom([]int{-200, -60, 0, 60, 200, 5000}).Draw(t, "shapePad")
+		s.Hist.U.Manifests[0] = ops.ManSpec{Kind: "opaque", Config: -1, Salt: 0, Pad: pad}
+		tag := rapid.IntRange(0, 2).Draw(t, "shapeTag")
+		first := rapid.IntRange(0, 1).Draw(t, "shapeFirstMode")
+		pre := []ops.Op{
+			{K: "pushManifest", R: 0, M: 0, T: tag, Mode: first},
+			{K: "pushManifest", R: 0, M: 0, T: -1, Mode: 1 - first},
+			{K: "getTag", R: 0, T: tag},
+			{K: "resolveTag", R: 0, T: tag},
+			{K: "getManifest", R: 0, M: 0},
+		}
+		s.Hist.Ops = append(pre, s.Hist.Ops...)
+		if len(s.Hist.Ops) > 32 {
+			s.Hist.Ops = s.Hist.Ops[:32]
+		}
+		for i := range s.Stack {
+			if s.Stack[i].Kind == "http" && rapid.IntRange(0, 3).Draw(t, "shapeOmit") > 0 {
+				s.Stack[i].OmitDigest = true
+			}
+		}
+	}
 	return s
 }
 
 var propDiff = &vt.Prop[Script]{
 	ID:   "C03",
 	Name: "StackVsDirectHistories",
-	Rule: "the same generated history (<=30 ops: all Interface methods, chunked uploads with resume in both modes, deletes, listings, mismatching pushes, malformed manifests; repository names with routing words; manifest sizes on both sides of 128 KiB) is applied to a bare ocimem and to client->server[->client->server]->ocimem over real loopback HTTP with generated server options (OmitDigestFromTagGetResponse, OmitLinkHeaderFromResponses, DisableSinglePostUpload, MaxListPageSize >= client page size), client page sizes {default,1,2,3,1000} and ocidebug below/between/above; every call is compared (success, OCI code - status class for HEAD resolves -, descriptor, bytes, listings) and finally everything readable from the two backends is compared; non-trivial = a repository name contains a routing word or a multi-request operation (upload, paged listing) ran; distinct = (stack, repository names, op-kind sequence)",
+	Rule: "the same generated history (<=30 ops: all Interface methods, chunked uploads with resume in both modes, deletes, listings, mismatching pushes, malformed manifests; repository names with routing words; manifest sizes on both sides of 128 KiB; in half of the cases the bytes of a manifest pushed again under another media type, 1 case in 12 opening with a tagged manifest near 128 KiB re-typed and read back by tag) is applied to a bare ocimem and to client->server[->client->server]->ocimem over real loopback HTTP with generated server options (OmitDigestFromTagGetResponse, OmitLinkHeaderFromResponses, DisableSinglePostUpload, MaxListPageSize >= client page size), client page sizes {default,1,2,3,1000} and ocidebug below/between/above; every call is compared (success, OCI code - status class for HEAD resolves -, descriptor, bytes, listings) and finally everything readable from the two backends is compared; non-trivial = a repository name contains a routing word or a multi-request operation (upload, paged listing) ran; distinct = (stack, repository names, op-kind sequence)",
 	Gen:  genDiff,
 	Run:  runDiff,
 }
